@@ -35,7 +35,7 @@ RULE = ("programs as in C01 with cleanups registered in setUp (before/after the 
         "patch/fixture together with a raising statement, or at least 2 raising statements; distinct = distinct JSON; patch "
         "targets: attributes of an instance, of its class and of the base class (own, inherited, missing), attributes of the "
         "instance served by a property or an inherited slot, each present/absent before, alone, twice, and in pairs that share "
-        "a name along the lookup chain; plus fixtures one of whose details cannot be evaluated when it is gathered (set-up ok / failing old and new style), @unittest.expectedFailure tests ending in every behaviour, force_failure set on the failed-setUp path, and - sampled outside the Coq model - an addOnException handler that raises while the exception of the test method / tearDown is processed")
+        "a name along the lookup chain; plus fixtures one of whose details cannot be evaluated when it is gathered (set-up ok / failing old and new style), @unittest.expectedFailure tests ending in every behaviour, force_failure set on the failed-setUp path, and - sampled outside the Coq model - an addOnException handler that raises while the exception of the test method / tearDown is processed, and a fixture that is set up but whose getDetails() raises when useFixture() asks for it (observed as the fixture followed by a raising statement)")
 TRUSTED = ["fixtures.Fixture setUp/cleanUp (fixtures 4.3.2) is modelled, not verified",
            "the __setattr__/__delattr__ log of the patched instance and of the metaclass of its classes is the observation "
            "device for patch undo actions; vars() of each patched object (getattr for property / slot attributes) "
@@ -83,7 +83,22 @@ def _without_raising_handlers(p):
     bodies and undo actions run, in which order) does not depend on them, and Corr.C02.alpha does not look at the
     outcome or at what run() lets out, so model and unchanged implementation still agree on these cases."""
     def go(acts):
-        return [["cleanup", a[1], go(a[2])] if a[0] == "cleanup" else a for a in acts if a[0] != "onexcraise"]
+        out = []
+        for a in acts:
+            if a[0] == "onexcraise":
+                continue
+            if a[0] == "cleanup":
+                out.append(["cleanup", a[1], go(a[2])])
+            elif a[0] == "fixture" and a[1].get("gdraise") is not None:
+                # second sampled extension: useFixture() of a fixture whose setUp succeeds and whose getDetails() then
+                # raises.  For what C02 observes (which bodies and undo actions run, in which order, what is left)
+                # this is the same fixture followed by a statement raising that exception: the fixture is set up,
+                # so its undo must be registered whatever fails afterwards.
+                out.append(["fixture", {k: v for k, v in a[1].items() if k != "gdraise"}])
+                out.append(["raise", a[1]["gdraise"]])
+            else:
+                out.append(a)
+        return out
     p = dict(p)
     for k in ("setup", "body", "teardown"):
         p[k] = dict(p[k], acts=go(p[k]["acts"]))
@@ -227,6 +242,31 @@ def generate(rng, tier):
     for k, p in enumerate(hr):
         for where in (["body"], ["teardown"], ["body", "teardown"]):
             cases.append({"prog": with_raising_handler(p, where), "attrs": [[0, 1]] if k % 2 else []})
+    # sampled extension (not in the Coq model): a fixture that is set up but whose getDetails() raises when
+    # useFixture() asks for it - from setUp, the test method, tearDown and a cleanup, new and old style, with
+    # cleanups of its own that raise; run twice like every case
+    fxg = lambda tok, **kw: dict({"tok": tok, "old": False, "details": [], "cleanups": [[tok + 1, None]], "fail": None,  # noqa: E731
+                                  "gdraise": E("ValueError", 4)}, **kw)
+    for k, p in enumerate([
+            R.mkprog(setup=[["fixture", fxg(20)]]),
+            R.mkprog(body=[["patch", 0, 5], ["fixture", fxg(20, old=True)], ["patch", 1, 6]]),
+            R.mkprog(teardown=[["fixture", fxg(20, cleanups=[[21, E("Fail")], [22, None]])]]),
+            R.mkprog(setup=[["cleanup", 10, [["fixture", fxg(20)]]]], body=[["raise", E("Fail", 1)]]),
+            R.mkprog(body=[["fixture", fxg(20, gdraise=E("Skip", 1))], ["fixture", fxg(30)]]),
+            R.mkprog(body=[["fixture", fxg(20, gdraise=E("Kbd"))]])]):
+        cases.append({"prog": R.retoken(p), "attrs": [[0, 1]] if k % 2 else []})
+    r4 = __import__("random").Random(rng.random())
+    made = 0
+    for _ in range(3000 if tier == "quick" else 40000):
+        if made >= (250 if tier == "quick" else 4000):
+            break
+        p = R.rand_prog(r4, feats=FEATS, p_raise=r4.choice([0.0, 0.3, 0.5]))
+        fx = [a[1] for a in R.all_acts(p) if a[0] == "fixture" and a[1]["fail"] is None and not a[1].get("bad")]
+        if not fx:
+            continue
+        r4.choice(fx)["gdraise"] = R.E(r4.choice(["ValueError", "Fail", "Skip"]), r4.randint(1, 5))
+        cases.append({"prog": p, "attrs": rand_attrs(r4)})
+        made += 1
     r3 = __import__("random").Random(rng.random())
     for _ in range(300 if tier == "quick" else 6000):
         p = R.rand_prog(r3, feats=FEATS, p_raise=r3.choice([0.0, 0.3, 0.5]))
